@@ -269,8 +269,13 @@ PROPS = {
             "(which since ce07816 implies that no two global names share their FNV handle; globals are observed "
             "under the names that do not collide with a name of the program), expression depth + 1 < 256, fewer than 2^32 variable "
             "ids, bytecode shorter than 2^31 bytes, for f1 / f2 budget >= instructions of main + 2; for f8 possible declarations + "
-            "temporaries of the deepest path + 1 < 256); for everything "
-            "else (reals, ForEach, calls, tables, closures, natives) its statement "
+            "temporaries of the deepest path + 1 < 256); static calls are covered in part (fragment F9, C01SimDefs9.in_f9: "
+            "several functions, Call with parameters to functions declared later in the module - no recursion -, Return, "
+            "If*, locals: C01_f9_reference_meaning relates eval_program to a direct fuel-free meaning run_main9, "
+            "C01_f9_compile_shape_code / C01_f9_compile_labels give the emitted code code_all9 and the function labels, "
+            "C01_f9_well_scoped puts the fragment inside well_scoped; the run of that code on the VM model is not proved "
+            "beyond the call / return steps, so there is no C01_compile_correct_f9); for everything "
+            "else (reals, ForEach, calls end to end, tables, closures, natives) its statement "
             "at the top of Properties/C01.v is carried by the differential check only",
         ],
     ),
